@@ -133,6 +133,15 @@ theorem cache_bulkRefreshKeys_c17_pin (isManual : Bool) :
 theorem cache_bulkRefreshKeys_c18_pin (isManual : Bool) :
     Gen.CacheLoad.cache_bulkRefreshKeys_c18 isManual = isManual := by pin_tac Gen.CacheLoad.cache_bulkRefreshKeys_c18
 
+theorem cache_bulkRefreshKeys_x0_pin (i : BitVec 64) (len_rks : BitVec 64) :
+    Gen.CacheLoad.cache_bulkRefreshKeys_x0 i len_rks = (len_rks - i) := by pin_tac Gen.CacheLoad.cache_bulkRefreshKeys_x0
+
+theorem cache_bulkRefreshKeys_x1_pin (i : BitVec 64) (len_rks : BitVec 64) :
+    Gen.CacheLoad.cache_bulkRefreshKeys_x1 i len_rks = (len_rks - i) := by pin_tac Gen.CacheLoad.cache_bulkRefreshKeys_x1
+
+theorem cache_bulkRefreshKeys_x2_pin (i : BitVec 64) (len_rks : BitVec 64) :
+    Gen.CacheLoad.cache_bulkRefreshKeys_x2 i len_rks = (len_rks - i) := by pin_tac Gen.CacheLoad.cache_bulkRefreshKeys_x2
+
 theorem cache_bulkRefreshKeys_a2_pin :
     Gen.CacheLoad.cache_bulkRefreshKeys_a2  = (0#64) := by pin_tac Gen.CacheLoad.cache_bulkRefreshKeys_a2
 
@@ -186,6 +195,18 @@ theorem cache_BulkGet_c14_pin (errsFromCalls__nil : Bool) :
 
 theorem cache_BulkGet_c15_pin (len_errsFromCalls : BitVec 64) :
     Gen.CacheLoad.cache_BulkGet_c15 len_errsFromCalls = (BitVec.slt (0#64) len_errsFromCalls) := by pin_tac Gen.CacheLoad.cache_BulkGet_c15
+
+theorem cache_BulkGet_x0_pin (len_keys : BitVec 64) (len_result : BitVec 64) :
+    Gen.CacheLoad.cache_BulkGet_x0 len_keys len_result = (len_keys - len_result) := by pin_tac Gen.CacheLoad.cache_BulkGet_x0
+
+theorem cache_BulkGet_x1_pin (len_keys : BitVec 64) (len_result : BitVec 64) :
+    Gen.CacheLoad.cache_BulkGet_x1 len_keys len_result = (len_keys - len_result) := by pin_tac Gen.CacheLoad.cache_BulkGet_x1
+
+theorem cache_BulkGet_x2_pin (i : BitVec 64) (len_misses : BitVec 64) :
+    Gen.CacheLoad.cache_BulkGet_x2 i len_misses = (len_misses - i) := by pin_tac Gen.CacheLoad.cache_BulkGet_x2
+
+theorem cache_BulkGet_x3_pin (i : BitVec 64) (len_misses : BitVec 64) :
+    Gen.CacheLoad.cache_BulkGet_x3 i len_misses = ((len_misses - i) + (1#64)) := by pin_tac Gen.CacheLoad.cache_BulkGet_x3
 
 theorem cache_BulkGet_a0_pin (c_clock_NowNano : BitVec 64) :
     Gen.CacheLoad.cache_BulkGet_a0 c_clock_NowNano = c_clock_NowNano := by pin_tac Gen.CacheLoad.cache_BulkGet_a0
@@ -265,6 +286,9 @@ theorem siteParams_pin : Gen.CacheLoad.siteParams = [("cache_refreshKey_c0", ["c
   ("cache_bulkRefreshKeys_c16", ["isManual"]),
   ("cache_bulkRefreshKeys_c17", ["isManual"]),
   ("cache_bulkRefreshKeys_c18", ["isManual"]),
+  ("cache_bulkRefreshKeys_x0", ["i", "len_rks"]),
+  ("cache_bulkRefreshKeys_x1", ["i", "len_rks"]),
+  ("cache_bulkRefreshKeys_x2", ["i", "len_rks"]),
   ("cache_bulkRefreshKeys_a2", []),
   ("cache_bulkRefreshKeys_u0", ["i"]),
   ("cache_BulkGet_c0", ["found"]),
@@ -283,6 +307,10 @@ theorem siteParams_pin : Gen.CacheLoad.siteParams = [("cache_refreshKey_c0", ["c
   ("cache_BulkGet_c13", ["cl_isNotFound", "ok"]),
   ("cache_BulkGet_c14", ["errsFromCalls__nil"]),
   ("cache_BulkGet_c15", ["len_errsFromCalls"]),
+  ("cache_BulkGet_x0", ["len_keys", "len_result"]),
+  ("cache_BulkGet_x1", ["len_keys", "len_result"]),
+  ("cache_BulkGet_x2", ["i", "len_misses"]),
+  ("cache_BulkGet_x3", ["i", "len_misses"]),
   ("cache_BulkGet_a0", ["c_clock_NowNano"]),
   ("cache_BulkGet_a8", []),
   ("cache_BulkGet_u0", ["i"]),
@@ -297,13 +325,13 @@ theorem siteParams_pin : Gen.CacheLoad.siteParams = [("cache_refreshKey_c0", ["c
   ("cache_BulkRefresh_c0", ["c_withRefresh"]),
   ("cache_BulkRefresh_a2", ["c_clock_NowNano"])] := by rfl
 
-theorem shape_pin : Gen.CacheLoad.shape = [("cache_refreshKey", [6, 0, 5, 2, 0]),
-  ("cache_Get", [3, 0, 3, 0, 0]),
-  ("cache_afterDeleteCall", [6, 0, 6, 0, 0]),
-  ("cache_bulkRefreshKeys", [19, 1, 23, 3, 1]),
-  ("cache_BulkGet", [16, 2, 18, 0, 0]),
-  ("cache_wrapLoad", [2, 0, 3, 1, 0]),
-  ("cache_Refresh", [1, 0, 2, 2, 0]),
-  ("cache_BulkRefresh", [1, 0, 6, 2, 0])] := by rfl
+theorem shape_pin : Gen.CacheLoad.shape = [("cache_refreshKey", [6, 0, 5, 2, 0, 0]),
+  ("cache_Get", [3, 0, 3, 0, 0, 0]),
+  ("cache_afterDeleteCall", [6, 0, 6, 0, 0, 0]),
+  ("cache_bulkRefreshKeys", [19, 1, 23, 3, 1, 3]),
+  ("cache_BulkGet", [16, 2, 18, 0, 0, 4]),
+  ("cache_wrapLoad", [2, 0, 3, 1, 0, 0]),
+  ("cache_Refresh", [1, 0, 2, 2, 0, 0]),
+  ("cache_BulkRefresh", [1, 0, 6, 2, 0, 0])] := by rfl
 
 end OtterVerif.Pin.CacheLoad
